@@ -1326,3 +1326,35 @@ mut("x-c13-clone-new-semaphore", "C13", A,
     """        Self::from_shared(self.config.clone(), self.sema.clone())""",
     """        Self::from_shared(self.config.clone(), Arc::new(async_lock::Semaphore::new(self.config.max_conns.get())))""",
     "R13.2/", "a cloned runner gets a fresh semaphore (through the shared private constructor)", base="s4-r6")
+
+mut("c03-unknown-type-header-not-consumed", "C03", "src/parser/stream.rs",
+    """                self.state = State::Skip;
+                self.raw_start = past_head;
+                return Ok(Continue(()));""",
+    """                self.state = State::Skip;
+                return Ok(Continue(()));""",
+    "R3.12/parse_head/progress-contract", "the header of an unknown-type record is parsed again and again: parse() never returns")
+
+mut("c03-skip-continues-with-itself", "C03", "src/parser/request.rs",
+    """            Continue((&mut data[total..], self.next.into_state()))
+        }
+    }
+}""",
+    """            let rest = &mut data[total..];
+            if rest.is_empty() {
+                return Continue((rest, self.next.into_state()));
+            }
+            self.payload_rem = 0;
+            self.padding_rem = 0;
+            Continue((rest, T::wrap_skip(self)))
+        }
+    }
+}""",
+    "R3.13/SkipState::drive/hands-over", "a finished skip re-enters itself once per call instead of handing over: harmless only because it then skips 0 bytes; one more such hop per record, and with `total == 0` the drive loop spins")
+mut("c03-header-continue-without-consuming", "C03", "src/parser/request.rs",
+    """                let vals = GetValuesState::new(self, head.content_length, head.padding_length);
+                return Continue((&mut data[fcgi::RecordHeader::LEN..], Self::wrap_values(vals)));""",
+    """                let vals = GetValuesState::new(self, head.content_length, head.padding_length);
+                let skip_head = if head.content_length == 0 && head.padding_length == 0xff { 0 } else { fcgi::RecordHeader::LEN };
+                return Continue((&mut data[skip_head..], Self::wrap_values(vals)));""",
+    "R3.13/HeaderState::drive/", "a GetValues header with a particular length combination is not consumed")
